@@ -1118,8 +1118,11 @@ func (this *rolzCodec2) Forward(src, dst []byte) (uint, uint, error) {
 			delta = 3
 			flags |= 8
 		} else if dt == internal.DT_DNA {
+			// Must mirror the decoder (bitstream version >= 4): flag 4 and
+			// a key computed from the 8 previous bytes
 			this.minMatch = _ROLZ_MIN_MATCH7
-			flags = 1
+			delta = 8
+			flags |= 4
 		}
 	}
 
